@@ -81,6 +81,17 @@ pub fn enrich(mut b: Built, s: &mut S) -> Built {
         ch.half_operators = vec!["n2".into()];
         ch.voices = vec!["n2".into(), "n1".into(), "phantom".into()];
         ch.protecteds = vec!["n2".into(), "n0".into()];
+        // lists from the file: masks without a setter record, which MODE must list and remove
+        // like any other
+        if s.chance(50) {
+            ch.ban.push(derive_mask(&src_of(1 + s.pick(3)), s));
+        }
+        if s.chance(20) {
+            ch.except.push(derive_mask(&src_of(1 + s.pick(3)), s));
+        }
+        if s.chance(15) {
+            ch.invex.push(derive_mask(&src_of(1 + s.pick(3)), s));
+        }
         b.cfg.channels.push(ch);
         b.prof.chans.push("&cfg".into());
         for i in 0..b.prelude_users {
